@@ -28,14 +28,14 @@ func genCase(r *gen.Rand, o *gen.Out, eng, focus string) (caseCfg, []string) {
 	// graceful stop while draining, 3 Start inside a terminating run's tail, 4 Start overlapping the
 	// nested Start of a recovery, 5 overlapping waits, 6 shutdown, 7 retries to exhaustion, 8 store
 	// failures, 9 v1 tomb bookkeeping race)
-	w := []int{40, 8, 8, 8, 8, 7, 7, 6, 8, 5, 8, 5}
+	w := []int{40, 8, 8, 8, 8, 7, 7, 6, 8, 5, 8, 5, 5}
 	switch focus {
 	case "c10":
-		w = []int{36, 12, 10, 0, 0, 2, 12, 12, 6, 10, 14, 3}
+		w = []int{36, 12, 10, 0, 0, 2, 12, 12, 6, 10, 14, 3, 3}
 	case "c11":
-		w = []int{36, 3, 0, 14, 12, 14, 4, 3, 10, 4, 3, 12}
+		w = []int{36, 3, 0, 14, 12, 14, 4, 3, 10, 4, 3, 12, 12}
 	case "c12":
-		w = []int{50, 10, 0, 12, 0, 10, 4, 4, 4, 6, 16, 2}
+		w = []int{50, 10, 0, 12, 0, 10, 4, 4, 4, 6, 16, 2, 3}
 	}
 	fam := r.Pick(w...)
 	forceBias := focus == "c12"
@@ -288,6 +288,28 @@ func genCase(r *gen.Rand, o *gen.Out, eng, focus string) (caseCfg, []string) {
 		}
 		if r.Chance(1, 2) {
 			add("stop:"+gf(), "settle")
+		}
+	case 12: // 2–3 sources; the stop call of one additional source's plugin fails once; the graceful stop is
+		// retried (Stop or StopAndWait): every plugin honours the retry, so the run has to end UserStopped
+		add(fmt.Sprintf("sources:%d", r.Range(2, 3)), "start", "settle")
+		waiting := r.Chance(1, 3)
+		if waiting {
+			add("wait:1")
+		}
+		if r.Chance(4, 5) {
+			add("stopfail")
+		}
+		add("stop:g", "settle")
+		if r.Chance(1, 2) {
+			add("stop:g", "settle")
+		} else {
+			add("saw", "settle")
+		}
+		if waiting {
+			add("join:1")
+		}
+		if r.Chance(1, 3) {
+			add("start", "settle", "stop:"+gf(), "settle")
 		}
 	case 8: // store failures
 		switch r.Pick(2, 2, 2) {
